@@ -8,6 +8,10 @@ import (
 	"github.com/truora/minidyn/types"
 )
 
+// hashKeyEscaper escapes the key separator in the hash part of a composite key,
+// so two different pairs of hash and range values never produce the same key
+var hashKeyEscaper = strings.NewReplacer("\\", "\\\\", ".", "\\.")
+
 type keySchema struct {
 	HashKey   string
 	RangeKey  string
@@ -38,7 +42,7 @@ func (ks keySchema) getKeyValue(attrs map[string]string, item map[string]*types.
 		return hashKeyStr, nil
 	}
 
-	key = append(key, hashKeyStr)
+	key = append(key, hashKeyEscaper.Replace(hashKeyStr))
 
 	val, err = getItemValue(item, ks.RangeKey, attrs[ks.RangeKey])
 	if err != nil {
